@@ -1,7 +1,55 @@
-(* placeholder until the codec theorems land *)
+(* C14 - the OPRF is oblivious and keyed per credential.  Statements only; proofs in Theory/Honest.v,
+   Theory/Oblivious.v, Theory/Accept.v, Theory/Layers.v. *)
 From Coq Require Import List.
-From OKE Require Import BytesLemmas.
-Theorem C14_placeholder : forall l x y px py r1 r2,
-  Bytes.lenprefix l x = Some px -> Bytes.lenprefix l y = Some py -> px ++ r1 = py ++ r2 -> x = y /\ r1 = r2.
-Proof. exact lenprefix_inj. Qed.
-Print Assumptions C14_placeholder.
+From OKE Require Import Bytes Suite Voprf Messages Envelope Opaque Laws Layers Honest Oblivious Accept Transcript.
+
+(* what the client derives depends on the password, the OPRF key and the stretching function - never on the blind *)
+Theorem C14_blind_independent :
+  forall E Sc Pk Sk (CS : Suite E Sc Pk Sk), GroupLaws CS ->
+  forall pw r k ksf rp,
+    ve CS (o_h2g (oprf CS) pw (dst_hash_to_group (oprf CS))) -> vs CS r -> vs CS k ->
+    get_password_derived_key CS pw r
+      (o_mul (oprf CS) (o_mul (oprf CS) (o_h2g (oprf CS) pw (dst_hash_to_group (oprf CS))) r) k) ksf = Ok rp ->
+    forall r', vs CS r' ->
+      get_password_derived_key CS pw r'
+        (o_mul (oprf CS) (o_mul (oprf CS) (o_h2g (oprf CS) pw (dst_hash_to_group (oprf CS))) r') k) ksf = Ok rp.
+Proof. exact @rpwd_unblinded. Qed.
+Print Assumptions C14_blind_independent.
+
+(* re-registering gives the same masking key *)
+Theorem C14_reregistration_same_masking_key :
+  forall E Sc Pk Sk (CS : Suite E Sc Pk Sk), GroupLaws CS ->
+  forall (setup : ServerSetup Pk Sk Sk) pw cred ids ksf ta ta' tb tb' creg rq r1 rr up ek spk r2 creg' rq' r1' rr' up' ek' spk' r2',
+    ve CS (o_h2g (oprf CS) pw (dst_hash_to_group (oprf CS))) ->
+    client_registration_start CS ta pw = Ok (creg, rq, r1) ->
+    server_registration_start CS setup rq cred = Ok rr ->
+    client_registration_finish CS creg tb pw rr ids ksf = Ok (up, ek, spk, r2) ->
+    client_registration_start CS ta' pw = Ok (creg', rq', r1') ->
+    server_registration_start CS setup rq' cred = Ok rr' ->
+    client_registration_finish CS creg' tb' pw rr' ids ksf = Ok (up', ek', spk', r2') ->
+    ru_masking_key up = ru_masking_key up'.
+Proof. exact @reregistration_same_masking_key. Qed.
+Print Assumptions C14_reregistration_same_masking_key.
+
+(* the server's evaluation is a deterministic function of (seed, credential identifier, request):
+   the same function at registration and at login, whatever the static key and the password file *)
+Theorem C14_evaluation_at_registration :
+  forall E Sc Pk Sk (CS : Suite E Sc Pk Sk) S (setup : ServerSetup Pk Sk S) m cred r,
+    server_registration_start CS setup m cred = Ok r ->
+    server_evaluate CS (ss_oprf_seed setup) cred (rq_blinded m) = Ok (rr_eval r) /\
+    rr_server_s_pk r = kp_pk (ss_keypair setup).
+Proof. exact @registration_start_evaluation. Qed.
+Print Assumptions C14_evaluation_at_registration.
+
+Theorem C14_evaluation_at_login :
+  forall E Sc Pk Sk (CS : Suite E Sc Pk Sk) S (SK : SkOps Pk S) tape (setup : ServerSetup Pk Sk S) file rq cred ctx ids st resp rest dbg,
+    server_login_start CS SK tape setup file rq cred ctx ids = Ok (st, resp, rest, dbg) ->
+    server_evaluate CS (ss_oprf_seed setup) cred (cq_blinded rq) = Ok (cr_eval resp).
+Proof. exact @login_start_evaluation. Qed.
+Print Assumptions C14_evaluation_at_login.
+
+(* the per-credential key is derived from an injective encoding of the credential identifier *)
+Theorem C14_credential_identifier_injective :
+  forall cred cred', cred ++ Generated.STR_OPRF_KEY = cred' ++ Generated.STR_OPRF_KEY -> cred = cred'.
+Proof. exact oprf_key_info_injective. Qed.
+Print Assumptions C14_credential_identifier_injective.
